@@ -247,13 +247,16 @@ func extractEquiJoinPlanRec(
 // CmpBoolExp with op == EQ where exactly one side is a concrete TypedValue
 // (the reduced outer column) and the other is a *ColSelector (inner column).
 func extractSingleEquiPair(cmp *CmpBoolExp) (outerVal TypedValue, innerSel string, ok bool) {
+	// An unqualified column has no table in its selector, the rows of the hash
+	// table carry fully qualified selectors only: such a condition cannot key
+	// the hash table and is left to the nested-loop path.
 	if lv, isTV := cmp.left.(TypedValue); isTV {
-		if rsel, isSel := cmp.right.(*ColSelector); isSel {
+		if rsel, isSel := cmp.right.(*ColSelector); isSel && rsel.table != "" {
 			return lv, rsel.Selector(), true
 		}
 	}
 	if rv, isTV := cmp.right.(TypedValue); isTV {
-		if lsel, isSel := cmp.left.(*ColSelector); isSel {
+		if lsel, isSel := cmp.left.(*ColSelector); isSel && lsel.table != "" {
 			return rv, lsel.Selector(), true
 		}
 	}
